@@ -37,6 +37,9 @@ def run(ctx):
     if ctx.replay:
         replay(ctx, [json.load(open(ctx.replay))["replay"]["case"]], "replay")
         return
+    # design level, unbounded: the inductive core of the retry rules (at most one arming, at most one second decryption, a
+    # connection that was not accepted is never inspected) is proved with TLAPS for every history length and alphabet
+    ctx.tlaps("EchConnProof", deps=("EchConn",), theorem="Spec => []Core (retry <= 1, seq <= 2, ~accepted => pure pipe) for every MaxLen, CSyms, BSyms, KeySets")
     # design level: deeper bound without emission
     ctx.mc("MCEchConn", "MCEchConn_mc5.cfg", timeout=1800) if not ctx.quick else None
     cases = ctx.emit("MCEchConn", "MCEchConn_q.cfg" if ctx.quick else "MCEchConn_t.cfg", workers=8, timeout=1800)
